@@ -170,6 +170,14 @@ func checkC17(replay string) {
 				}
 			}
 		}
+		// statements that span several lines (the diagnostic need not be on the statement's first line) get the same priority
+		for _, st := range gen.Statements(bt0.P) {
+			if len(st.N.Pre) > 1 && len(st.N.Kids) == 0 && len(st.N.Post) == 0 {
+				for _, l := range st.N.Pre {
+					lastDecl[l] = true
+				}
+			}
+		}
 		for _, d := range pr0.res.Diags {
 			if l := bt0.P.FindLine(d.File, d.Line); l != nil && l.Trail == nil {
 				tg = append(tg, tgt{l.ID, d.Code, lastDecl[l]})
@@ -207,7 +215,7 @@ func checkC17(replay string) {
 			for _, m := range pr.mm {
 				where := "inside-a-body"
 				if t.last {
-					where = "last-declaration-of-file"
+					where = "last-declaration-of-file-or-multi-line-statement"
 				}
 				r.Violate("suppress/"+where+"/"+m.Key, fmt.Sprintf("program %d: '// @ignore %s' appended to the line of a %s diagnostic (line id %d): %s", pi, t.code, t.code, t.id, m.Detail), replayFiles(pr, nil))
 				break
